@@ -426,10 +426,13 @@ func main() {
 	for n := 0; n < nOrder*3/4; n++ { // several clients on ONE provider / legacy server
 		runClients(w, r)
 	}
+	for n := 0; n < nOrder*3/4; n++ { // answers of every request class (error paths) on providers in configuration variants
+		runAnswers(w, r)
+	}
 	extra := map[string]any{"calls_succeeded": okCount}
 	notes := raceTier(w, cfg, extra) // quick: reduced (1 round, 30% iterations); thorough: 2 rounds
 	err := w.Close(emit.Meta{Property: "C20", Tier: cfg.Tier, Seed: cfg.Seed, Notes: notes, Extra: extra,
-		Rule: "snap: 16 operation classes in rotation (constructors of op/rp/rs/tokenexchange with random option lists, requests against provider and legacy server, rp/rs/tokenexchange/key-set calls, client.Call* helpers, GetAudience) on a randomised world (default or caller client with/without CheckRedirect, jar, timeout; user-customised default endpoint; option slices with spare capacity; oauth2.Config auth style); order: 2-4 groups on separate instances sharing clients/defaults, random interleaving, one probe per group (discovery endpoints; does a Discover/token/userinfo/introspect/exchange call follow a redirect); handler: overlapping requests with per-request data on one handler value; clients: 2-4 clients (two basic, two post, four JWT-key clients; a client and mostly its twin) on ONE provider / legacy server, 1-3 requests + a probe each of a random kind (client credentials, code, jwt-bearer, refresh, introspection, revocation, device, userinfo, another client's token) in a random credential variant (own, twin's, none, near miss), random interleaving, probe answer = refused / served as client c. Non-trivial = every case (path class = operation class / interleaving length); distinct = distinct input term.",
+		Rule: "snap: 16 operation classes in rotation (constructors of op/rp/rs/tokenexchange with random option lists, requests against provider and legacy server, rp/rs/tokenexchange/key-set calls, client.Call* helpers, GetAudience) on a randomised world (default or caller client with/without CheckRedirect, jar, timeout; user-customised default endpoint; option slices with spare capacity; oauth2.Config auth style); order: 2-4 groups on separate instances sharing clients/defaults, random interleaving, one probe per group (discovery endpoints; does a Discover/token/userinfo/introspect/exchange call follow a redirect); handler: overlapping requests with per-request data on one handler value; clients: 2-4 clients (two basic, two post, four JWT-key clients; a client and mostly its twin) on ONE provider / legacy server, 1-3 requests + a probe each of a random kind (client credentials, code, jwt-bearer, refresh, introspection, revocation, device, userinfo, another client's token) in a random credential variant (own, twin's, none, near miss), random interleaving, probe answer = refused / served as client c; answers: 2-4 groups on up to four instances (two providers in configuration variants - UserFormURL/UserFormPath, custom endpoints, logout URI - and the legacy servers over them), requests of 23 classes (happy paths and every validation-error class of every endpoint) with process-unique states, a focus class repeated, each answer compared with the same request alone and scanned for foreign data. Non-trivial = every case (path class = operation class / interleaving length); distinct = distinct input term.",
 	})
 	if err != nil {
 		fmt.Fprintln(os.Stderr, err)
